@@ -1,9 +1,25 @@
 package dissect
 
-import "unicode"
+// lowerASCII folds A-Z to a-z and leaves every other byte untouched, so that multi-byte
+// UTF-8 sequences compare byte for byte (case folding is ASCII-only, on pattern and line alike)
+func lowerASCII(c byte) byte {
+	if c >= 'A' && c <= 'Z' {
+		return c + ('a' - 'A')
+	}
+	return c
+}
+
+// lowerASCIIString applies lowerASCII to every byte of s
+func lowerASCIIString(s string) string {
+	b := []byte(s)
+	for i := range b {
+		b[i] = lowerASCII(b[i])
+	}
+	return string(b)
+}
 
 // Finds case-insensitive index of second string
-// ASSUMES second string is already lowered (optimization)
+// ASSUMES second string is already lowered with lowerASCIIString (optimization)
 func indexIgnoreCase(s, loweredSubstr string) int {
 	n := len(loweredSubstr)
 	switch {
@@ -13,7 +29,7 @@ func indexIgnoreCase(s, loweredSubstr string) int {
 		return -1
 	case len(s) == n:
 		for i := 0; i < n; i++ {
-			if unicode.ToLower(rune(s[i])) != rune(loweredSubstr[i]) {
+			if lowerASCII(s[i]) != loweredSubstr[i] {
 				return -1
 			}
 		}
@@ -22,7 +38,7 @@ func indexIgnoreCase(s, loweredSubstr string) int {
 		for i := 0; i <= len(s)-n; i++ {
 			match := true
 			for j := 0; j < n; j++ {
-				if unicode.ToLower(rune(s[i+j])) != rune(loweredSubstr[j]) {
+				if lowerASCII(s[i+j]) != loweredSubstr[j] {
 					match = false
 					break
 				}
